@@ -312,6 +312,151 @@ def stream_sql_and_e2e(ck, model_ok, tm=None):
     ck.coverage["triples_exercised"] = len(cov)
 
 
+# ----------------------------------------------------------------------------- (c) std function calls
+
+FN_DOMAIN = [None, 1, 2, 12, 123, "12", "ab", "2a"]
+
+
+def _fn_templates(stdsql, dialect):
+    """name -> template chosen by find_operator_impl (dialect module first, then the default one), for the
+    function modules math.* and text.* (operators, aggregates and window functions have their own streams)"""
+    out = {}
+    for mod in (dialect, ""):
+        for t in stdsql["templates"]:
+            if t["module"] == mod and t["name"] not in out and (t["name"].startswith("math.") or t["name"].startswith("text.")):
+                out[t["name"]] = t
+    return {n: t for n, t in out.items() if t["chunks"] is not None and t["skel"] is not None and t["coalesce"] is None
+            and not t["window"] and len(t["params"]) > 0}
+
+
+def fn_children():
+    I = lambda n: ("lit", "int", n)
+    a, b, c = ("col", 0), ("col", 1), ("col", 2)
+    return [("bin", "Add", b, c), ("bin", "Mul", b, I(2)), ("bin", "Sub", b, c), ("bin", "Eq", b, c), ("bin", "Lt", b, c),
+            ("bin", "And", b, c), ("bin", "Or", b, c), ("bin", "Coalesce", b, c), ("un", "Neg", b), ("bin", "Mod", b, c),
+            ("bin", "DivFloat", b, c), ("bin", "DivInt", b, c), ("bin", "Eq", b, ("lit", "null", None)), ("in", b, I(1), I(5)),
+            ("case", [(("bin", "Gt", b, I(1)), c), (("lit", "bool", True), a)]), ("un", "Not", b), ("un", "Neg", I(5))]
+
+
+def stream_fncall(ck, model_ok, stdsql):
+    """every math.* / text.* template of sql.sqlite and sql.generic x every parameter position x a family of operator
+    children: (1) model SQL text (translate of the call node) vs compile, byte for byte; (2) a differential oracle
+    that needs no value model: the emitted expression and the template with every hole filled by the PARENTHESISED
+    child text are both executed on SQLite over a table of numbers and strings -- rows differ exactly when the
+    emitter's (missing) parentheses make the engine regroup."""
+    if not stdsql or "templates" not in stdsql:
+        return
+    import sqlite3
+    from .c02_classify import classify_fncall
+    kids = fn_children()
+    leaves = [("col", 0), ("col", 1), ("col", 2)]
+    cases = []          # (name, position, child, [arg trees])
+    names = sorted(set(_fn_templates(stdsql, "sqlite")) | set(_fn_templates(stdsql, "generic")))
+    for nm in names:
+        t = _fn_templates(stdsql, "sqlite").get(nm) or _fn_templates(stdsql, "generic").get(nm)
+        n = len(t["params"])
+        for pos in range(n):
+            for ch in kids:
+                args = [leaves[i % 3] for i in range(n)]
+                args[pos] = ch
+                cases.append((nm, pos, ch, args))
+
+    def arg_src(t):
+        s = G.prql(t)
+        return s if t[0] == "col" or (t[0] == "lit" and not s.startswith("-")) else "(" + s + ")"
+    srcs = ["(%s %s)" % (nm, " ".join(arg_src(x) for x in args)) for nm, pos, ch, args in cases]
+    model = [None] * len(cases)
+    if model_ok:
+        try:
+            hdr = M.HEADER.replace("Model.EvalDoc", "Model.EvalDoc Model.SqlSem Model.SqlCompat Model.C02Probe")
+            exprs = ["probe_call %s [%s]" % (G_codes("std." + nm), "; ".join(G.coq(x) for x in args)) for nm, pos, ch, args in cases]
+            model = coq_eval_retry(ck, hdr, exprs)
+        except (RuntimeError, ValueError, TypeError) as ex:
+            ck.coverage["fncall_model_error"] = str(ex)[-600:]
+            ck.violation("the SQL emission model could not be evaluated on function calls: the correspondence did not run",
+                         {"kind": "model-evaluation-failed", "error": str(ex)[-600:]}, no_input=True)
+    rows = [(x, y, z) for x in FN_DOMAIN for y in FN_DOMAIN for z in FN_DOMAIN]
+    conn = sqlite3.connect(":memory:")
+    conn.execute("CREATE TABLE t(a, b, c)")
+    conn.executemany("INSERT INTO t VALUES (?, ?, ?)", rows)
+
+    def run(sql):
+        try:
+            return conn.execute("SELECT %s FROM t" % sql).fetchall()
+        except sqlite3.Error as ex:
+            return str(ex)
+    for di, dialect in enumerate(M.DIALECTS):
+        tmpl = _fn_templates(stdsql, dialect)
+        comp = M.compile_batch(srcs, dialect)
+        childsql = {}
+        distinct = []
+        for nm, pos, ch, args in cases:
+            for x in args:
+                s = G.prql(x)
+                if s not in childsql:
+                    childsql[s] = None
+                    distinct.append(s)
+        for s, r in zip(distinct, M.compile_batch(distinct, dialect)):
+            childsql[s] = r[0] if r and r[0] not in ("ERR", None) else None
+        for k, (nm, pos, ch, args) in enumerate(cases):
+            got = comp[k]
+            t = tmpl.get(nm)
+            ck.stat("fncall", "%s:%s" % (dialect, "no-template" if t is None else "rejected" if got[0] == "ERR" else "compiled"))
+            if t is None or got[0] in ("ERR", None):
+                continue
+            mk = model[k][di] if model[k] is not None else None
+            mt = M.codes_text(mk[0]) if mk is not None else None
+            bad = Q.triples_py(mk[2]) if mk is not None else None
+            case = {"stream": "fncall", "dialect": dialect, "src": "from t | select {v = %s}" % srcs[k], "fn": nm, "position": pos,
+                    "param": t["params"][pos], "child": G.prql(ch), "sql": got[0], "model_sql": mt, "bad_triples": bad}
+            ck.count("fncall", dialect + "|" + srcs[k], nontrivial=True)
+            if mt is not None and mt != got[0]:
+                c2 = dict(case); c2["stream"] = "sqltext"
+                ck.disagreement("SQL text differs for %r (%s): model %r, implementation %r" % (srcs[k], dialect, mt, got[0]), c2, classify_text)
+            # reference: every hole filled by the parenthesised child text
+            parts = []
+            ok = True
+            for c in t["chunks"]:
+                if c[0] == "text":
+                    parts.append(c[1])
+                else:
+                    cs = childsql.get(G.prql(args[c[2]]))
+                    if cs is None:
+                        ok = False
+                        break
+                    parts.append("(" + cs + ")")
+            if not ok:
+                ck.stat("fncall", dialect + ":no-reference")
+                continue
+            ref = "".join(parts)
+            case["reference_sql"] = ref
+            r1, r2 = run(got[0]), run(ref)
+            if isinstance(r1, str) or isinstance(r2, str):
+                ck.stat("fncall", dialect + (":not-executable-on-sqlite" if isinstance(r1, str) and isinstance(r2, str) else ":one-side-fails"))
+                if isinstance(r1, str) != isinstance(r2, str):
+                    case["exec"] = {"emitted": r1 if isinstance(r1, str) else "ok", "reference": r2 if isinstance(r2, str) else "ok"}
+                    ck.disagreement("only one of emitted / parenthesised reference executes for %r (%s): %s" % (srcs[k], dialect, case["exec"]), case, classify_fncall)
+                continue
+            ck.stat("fncall", dialect + ":executed")
+            diff = [i for i in range(len(rows)) if r1[i] != r2[i] and not (isinstance(r1[i][0], float) and isinstance(r2[i][0], float) and abs(r1[i][0] - r2[i][0]) <= 1e-9 * max(1.0, abs(r2[i][0])))]
+            if diff:
+                i = diff[0]
+                case.update({"row": {"a": rows[i][0], "b": rows[i][1], "c": rows[i][2]}, "observed": repr(r1[i][0]), "expected": repr(r2[i][0]),
+                             "rows_wrong": len(diff), "rows_compared": len(rows)})
+                ck.disagreement("the engine regroups %r (%s): `%s` gives %r, the intended `%s` gives %r at %s (%d/%d rows)" % (
+                    srcs[k], dialect, got[0], r1[i][0], ref, r2[i][0], case["row"], len(diff), len(rows)), case, classify_fncall)
+            elif bad and (bad[0] or bad[1]):
+                # the table calls this triple bad but no row of the domain shows it: keep it visible
+                ck.stat("fncall", dialect + ":bad-triple-without-witness-row")
+            elif k % 53 == 0:
+                ck.sample({"stream": "fncall", "dialect": dialect, "expr": srcs[k], "sql": got[0], "reference": ref})
+    conn.close()
+
+
+def G_codes(s):
+    return "[" + "; ".join(str(ord(c)) for c in s) + "]%N"
+
+
 # ----------------------------------------------------------------------------- directed cases
 
 def stream_directed(ck):
@@ -338,6 +483,37 @@ def stream_directed(ck):
     if "ok" in a and "--" in a["ok"]:
         ck.disagreement("negation of an s-string starting with `-` emits an SQL comment: %s" % a["ok"],
                         {"stream": "directed", "src": src, "sql": a["ok"]}, lambda c: F["F3b"])
+    # C02-N5 / C02-N7 (open) and C02-N6 (repaired by e8f08a7): LIKE templates and f-string concatenation next to `||`.
+    # Each replay is compiled, and the emitted statement and a hand-parenthesised reference are executed on SQLite.
+    import sqlite3
+    conn = sqlite3.connect(":memory:")
+    conn.execute("CREATE TABLE t(a, b, c)")
+    conn.executemany("INSERT INTO t VALUES (?, ?, ?)", [(123, 10, 2), ("3x", 1, 2), (1, 1, "1"), ("ab", "a", "b"), (None, 1, 2), (12, 12, 0)])
+    for key, src, bad_text, reference in (
+            ("N5", "from t | select {v = (a | text.starts_with (b + c))}", "a LIKE b + c || '%'", "SELECT a LIKE (b + c) || '%' AS v FROM t"),
+            ("N5", "from t | select {v = (a | text.contains (b * c))}", "a LIKE '%' || b * c || '%'", "SELECT a LIKE '%' || (b * c) || '%' AS v FROM t"),
+            ("N5", "from t | select {v = (a | text.ends_with (b - c))}", "a LIKE '%' || b - c", "SELECT a LIKE '%' || (b - c) AS v FROM t"),
+            ("N7", 'from t | derive d = b + c | select {v = f"{d}x"}', "b + c || 'x'", "SELECT (b + c) || 'x' AS v FROM t"),
+            ("N6", "from t | select {v = ((a == b) | text.contains c)}", "a = b LIKE", "SELECT (a = b) LIKE '%' || c || '%' AS v FROM t"),
+            ("N6", "from t | select {v = ((a | text.contains c) < b)}", "|| '%' < b", "SELECT (a LIKE '%' || c || '%') < b AS v FROM t"),
+            ("N6", "from t | select {v = ((a && b) | text.starts_with c)}", "a AND b LIKE", "SELECT (a AND b) LIKE c || '%' AS v FROM t")):
+        a = harness("compile", [{"src": src, "target": "sql.sqlite", "format": False, "sig": False}])[0]
+        ck.count("directed", src)
+        if "ok" not in a:
+            ck.violation("directed replay no longer compiles: %s" % src, {"stream": "directed", "src": src, "answer": a})
+            continue
+        try:
+            got = conn.execute(a["ok"]).fetchall()
+            want = conn.execute(reference).fetchall()
+        except sqlite3.Error as ex:
+            ck.violation("directed replay does not execute: %s: %s" % (a["ok"], ex), {"stream": "directed", "src": src, "sql": a["ok"]})
+            continue
+        if got != want or bad_text in a["ok"]:
+            wrong = [i for i in range(len(want)) if got[i] != want[i]]
+            ck.disagreement("operand next to `||` / LIKE regroups: %s (intended: %s); %d of %d rows differ%s" % (
+                a["ok"], reference, len(wrong), len(want), (", e.g. observed %r, intended %r" % (got[wrong[0]][0], want[wrong[0]][0])) if wrong else ""),
+                {"stream": "directed", "src": src, "sql": a["ok"], "reference": reference, "rows_wrong": len(wrong)}, lambda c, k=key: F[k])
+    conn.close()
     # findings that live in tables / non-executable dialects: confirm the recorded emission
     for key, target, want in (("N3", "sql.sqlite", "a REGEXP b < c"), ("N4", "sql.bigquery", "(a + b * 180 / PI())")):
         f = [x for x in ck.findings if x["id"] == F[key]]
